@@ -99,6 +99,12 @@ def valid_table(rng, thorough):
                 g = mk_geom(rng, fat32, N, rng.choice([1, 2, 4]), slot=slot, lba=lba, part_slack=rng.choice([0, 7]),
                             status=rng.choice([0, 0x80]), ptype=rng.choice([4, 6, 14, 11, 12]))
                 gs.append(("slots", g))
+    # any FAT count is well formed (BPB_NumFATs is one byte, >= 1): three, four and 255 copies
+    for nfats in (3, 4, 255, 7):
+        for fat32 in (False, True):
+            N = (65525 if fat32 else 4085) + rng.below(300)
+            g = mk_geom(rng, fat32, N, rng.choice([1, 2, 8]), nfats=nfats, slot=rng.below(4), root_entries=rng.choice([16, 512, 240]))
+            gs.append(("table", g))
     for nfats in (1, 2):
         for re_ in (16, 511, 512):
             for use16 in (False, True):
@@ -154,7 +160,7 @@ def near_valid_table(rng):
     base16 = lambda **kw: mk_geom(rng, False, 5000, 4, slot=rng.below(4), **kw)
     base32 = lambda **kw: mk_geom(rng, True, 70000, 2, slot=rng.below(4), **kw)
     for mk in (base16, base32):
-        for f, vals in (("spc", [0, 3, 255, 129]), ("nfats", [0, 3, 255]), ("reserved", [0]), ("fat_size", [0, 1]),
+        for f, vals in (("spc", [0, 3, 255, 129]), ("nfats", [0]), ("reserved", [0]), ("fat_size", [0, 1]),
                         ("total", [0, 1, 100]), ("ptype", [0, 1, 5, 7, 0x0F, 0x83, 0xEE, 255]), ("status", [1, 0x7F, 0x81, 0xFF]),
                         ("lba", [0]), ("slot", [4, 5, 255]), ("fs_info", [0, 40, 65535]), ("root_cluster", [0, 1, U32]),
                         ("part_blocks", [0, 1])):
